@@ -14,16 +14,16 @@ import (
 func (s *Search) Reachable(starts []Start, pred func(ssa.Instruction) bool) []ssa.Instruction {
 	var out []ssa.Instruction
 	seen := map[ssa.Instruction]bool{}
-	orig := s.Stop
-	s.Stop = func(ins ssa.Instruction) bool {
+	oldV, oldI := s.OnVisit, s.Interest
+	s.OnVisit = func(ins ssa.Instruction) {
 		if pred(ins) && !seen[ins] {
 			seen[ins] = true
 			out = append(out, ins)
 		}
-		return orig != nil && orig(ins)
 	}
+	s.Interest = append(append([]func(ssa.Instruction) bool{}, oldI...), pred)
 	s.Find(starts, nil, false)
-	s.Stop = orig
+	s.OnVisit, s.Interest = oldV, oldI
 	return out
 }
 
